@@ -154,6 +154,34 @@ Proof.
   repeat split; try reflexivity. vm_compute; discriminate.
 Qed.
 
+(* ------------------------------------------------------------------ numeric literal values *)
+Lemma digit_not_sign : forall c, is_digit c = true -> c <> "-"%char /\ c <> "+"%char.
+Proof. intros c H. split; intros E; subst; discriminate H. Qed.
+
+Lemma span_digits_all : forall ds, forallb is_digit ds = true -> span is_digit ds = (ds, []).
+Proof.
+  induction ds as [|c ds IH]; simpl; intros H; auto.
+  apply andb_true_iff in H. destruct H as [Hc Hr]. rewrite Hc, IH; auto.
+Qed.
+
+(* a digit string is the integer it spells; with a sign (IN lists) the signed integer *)
+Theorem num_value_int_p : forall ds, ds <> [] -> forallb is_digit ds = true ->
+  num_value (string_of_list_ascii ds) = VInt (digits_val ds) /\
+  num_value (string_of_list_ascii ("-"%char :: ds)) = VInt (- digits_val ds) /\
+  num_value (string_of_list_ascii ("+"%char :: ds)) = VInt (digits_val ds).
+Proof.
+  intros ds NE F. unfold num_value. rewrite !list_ascii_of_string_of_list_ascii.
+  destruct ds as [|c ds]; [congruence|].
+  pose proof F as F'. simpl in F'. apply andb_true_iff in F'. destruct F' as [Fc _].
+  destruct (digit_not_sign c Fc) as [N1 N2].
+  rewrite (span_digits_all (c :: ds) F).
+  split; [|split].
+  - destruct c as [[|] [|] [|] [|] [|] [|] [|] [|]]; try discriminate Fc;
+      rewrite (span_digits_all _ F); f_equal; apply Z.mul_1_l.
+  - f_equal; try (destruct (digits_val (c :: ds)); reflexivity).
+  - f_equal; try apply Z.mul_1_l.
+Qed.
+
 (* ------------------------------------------------------------------ the composed path: lexer, parser, of_tree, conv *)
 Section Path.
   Variable res : string -> option rid.
